@@ -10,7 +10,7 @@ namespace Csproto.Bridge
 theorem encodeNested_arms_ok : Generated.EncodeNested_arms =
     ["MarshalerTo:Size,EncodeTag,EncodeVarint,.MarshalTo", "Marshaler:.Marshal,.EncodeBytes", "default:Marshal,.EncodeBytes"] := by decide
 
-theorem decodeNested_arms_ok : Generated.DecodeNested_arms = ["Unmarshaler:.Unmarshal", "default:Unmarshal"] := by decide
+theorem decodeNested_arms_ok : Generated.DecodeNested_arms = ["Unmarshaler:.Reset,.Unmarshal", "default:Unmarshal"] := by decide
 
 theorem marshal_probes_ok : Generated.Marshal_probes =
     ["Marshaler:.Marshal", "ProtoV1Marshaler:.XXX_Size,.XXX_Marshal", "proto.Message:proto.Marshal"] := by decide
